@@ -87,10 +87,14 @@ def _chunk_task(args):
     machine = get_machine(machine_key)
     return kernel.run_chunk(machine, base_seed, indices, avoid_frac, known,
                             shrink_budget, keep_samples, run_timeout,
-                            ops_scale)
+                            ops_scale, machine_key=machine_key)
 
 
 # machine registry -----------------------------------------------------------
+def _register_factory():
+    kernel.MACHINE_FACTORY = get_machine
+
+
 def get_machine(key):
     """key: e.g. 'C06', 'C06:fault'."""
     pid, _, variant = key.partition(':')
@@ -122,6 +126,8 @@ def get_machine(key):
 
 
 # (variant key, share of the time budget) per property and tier
+_register_factory()
+
 VARIANTS = {
     'C05': [('C05', 1.0)],
     'C06': [('C06', 0.7), ('C06:fault', 0.3)],
@@ -156,7 +162,9 @@ class Agg:
         self.extra = {}
         self.sigs = set()
         self.nontrivial_sigs = set()
-        self.verdicts = {'OK': 0, 'VIOLATION': 0, 'KNOWN': 0, 'HARNESS': 0}
+        self.verdicts = {'OK': 0, 'VIOLATION': 0, 'KNOWN': 0, 'HARNESS': 0,
+                         'UNCONFIRMED': 0}
+        self.unconfirmed = []
         self.samples = []
         self.violations = []
         self.known = {}
@@ -195,6 +203,8 @@ class Agg:
             self.known.setdefault(res['known_id'], []).append((key, res))
         elif res['verdict'] == 'HARNESS':
             self.harness.append((key, res))
+        elif res['verdict'] == 'UNCONFIRMED':
+            self.unconfirmed.append((key, res))
 
 
 def run_variant(key, base_seed, budget_s, max_runs, workers, agg, known,
@@ -376,6 +386,20 @@ def run_property(pid, tier, base_seed, workers=16, budget_override=None,
                      'not reproduce in a fresh process (state shared '
                      'between runs of one worker process, or simulator '
                      'nondeterminism)\n' + out}))
+        agg.verdicts['HARNESS'] += 1
+    if len(agg.unconfirmed) >= 3:
+        # first executions failed but the same plans pass from a clean
+        # state: library state leaks from one run of a worker into the next
+        # (or the simulator is nondeterministic).  Not a replayable
+        # violation; reported as a harness error so that it is never a pass.
+        k0, r0 = agg.unconfirmed[0]
+        agg.harness.append((k0, {
+            'verdict': 'HARNESS', 'seed': r0.get('seed'),
+            'error': f'{len(agg.unconfirmed)} first executions reported '
+                     f'{r0["unconfirmed"]["invariant"]}['
+                     f'{r0["unconfirmed"]["subject"]}] but the same plans '
+                     'do not fail when executed from a clean process state: '
+                     'state shared between runs of one worker process'}))
         agg.verdicts['HARNESS'] += 1
     if fidelity and fidelity.get('mismatches'):
         # the real pool disagrees with the serial path: a genuine violation
